@@ -29,19 +29,46 @@ class _StepLimitReached(Exception):
 
 
 def _is_line_terminator(ch: str) -> bool:
-    return ch == "\n"
+    """ECMAScript LineTerminator: LF, CR, LS, PS."""
+    return ch == "\n" or ch == "\r" or ch == "\u2028" or ch == "\u2029"
 
 
 def _is_digit(ch: str) -> bool:
-    return ch.isdigit()
+    """\\d is ASCII only in ECMAScript."""
+    return "0" <= ch <= "9"
 
 
 def _is_word_char(ch: str) -> bool:
-    return ch.isalnum() or ch == "_"
+    """\\w and \\b use the ASCII word characters [A-Za-z0-9_]."""
+    return "a" <= ch <= "z" or "A" <= ch <= "Z" or "0" <= ch <= "9" or ch == "_"
 
 
 def _is_space(ch: str) -> bool:
-    return ch.isspace()
+    """\\s: ECMAScript WhiteSpace and LineTerminator code points."""
+    code = ord(ch)
+    if code < 0x80:
+        return code == 0x20 or 0x09 <= code <= 0x0D
+    return (
+        code == 0xA0
+        or code == 0x1680
+        or 0x2000 <= code <= 0x200A
+        or code == 0x2028
+        or code == 0x2029
+        or code == 0x202F
+        or code == 0x205F
+        or code == 0x3000
+        or code == 0xFEFF
+    )
+
+
+def _canonicalize(ch: str) -> str:
+    """Case folding of the i flag (ECMAScript Canonicalize, non-unicode mode)."""
+    upper = ch.upper()
+    if len(upper) != 1:
+        return ch
+    if ord(ch) >= 128 and ord(upper) < 128:
+        return ch
+    return upper
 
 
 class MatchResult:
@@ -436,24 +463,31 @@ class RegexVM:
     def _char_matches(self, ch: str, char_code: int) -> bool:
         """Does input character ch match the pattern character char_code?"""
         if self.ignorecase:
-            return ord(ch.lower()) == char_code or ord(ch.upper()) == char_code
+            return _canonicalize(ch) == _canonicalize(chr(char_code))
         return ord(ch) == char_code
 
     def _same_char(self, a: str, b: str) -> bool:
         """Character equality as used by backreferences."""
         if self.ignorecase:
-            return a.lower() == b.lower()
+            return _canonicalize(a) == _canonicalize(b)
         return a == b
 
     def _in_ranges(self, ch: str, ranges: List[Tuple[int, int]]) -> bool:
         """Is ch a member of the character class given by (start, end) code point ranges?"""
-        codes = [ord(ch)]
+        code = ord(ch)
+        for start, end in ranges:
+            if start <= code <= end:
+                return True
         if self.ignorecase:
-            codes = [ord(ch.lower()), ord(ch.upper())]
-        for code in codes:
-            for start, end in ranges:
-                if start <= code <= end:
-                    return True
+            # Some class member a must satisfy Canonicalize(a) == Canonicalize(ch)
+            canonical = _canonicalize(ch)
+            for variant in (canonical, canonical.lower(), ch.lower()):
+                if len(variant) != 1 or _canonicalize(variant) != canonical:
+                    continue
+                code = ord(variant)
+                for start, end in ranges:
+                    if start <= code <= end:
+                        return True
         return False
 
     def _is_word_boundary(self, string: str, pos: int) -> bool:
